@@ -204,7 +204,7 @@ def run(ctx):
     samples = []
 
     def report(f, kind, replay_extra):
-        key = (f.site, f.tags[0])
+        key = (f.site, tuple(f.tags))
         stats["findings_" + kind] += 1
         if key in viol:
             viol[key][0] += 1
